@@ -230,7 +230,7 @@ pub fn objstm() -> DocSpec {
     slots.insert(5, Slot::RawCompressed { stm: 3, idx: 0 });
     slots.insert(6, Slot::RawCompressed { stm: 3, idx: 1 });
     slots.insert(7, Slot::RawCompressed { stm: 3, idx: 2 });
-    DocSpec { junk: vec![], revisions: vec![Revision { slots, objstms: vec![], style: XrefStyle::Stream { num: 8, w: [1, 3, 2], cuts: vec![], filter: StmFilter::None }, size: 9, root: Val::r(1), trailer: vec![], overrides: vec![] }], encrypt: None }
+    DocSpec { junk: vec![], revisions: vec![Revision { slots, objstms: vec![], style: XrefStyle::Stream { num: 8, w: [1, 3, 2], cuts: vec![], filter: StmFilter::None, predictor: 0 }, size: 9, root: Val::r(1), trailer: vec![], overrides: vec![] }], encrypt: None }
 }
 
 /// two revisions (classic then xref stream) whose trailer / xref-stream fields are attack surface
@@ -242,9 +242,9 @@ pub fn xref_fields(stream_first: bool) -> DocSpec {
     s0.insert(3, d(Val::dict(vec![("Type", Val::name("Page")), ("Parent", Val::r(2)), ("MediaBox", rect(0, 0, 10, 10)), ("Resources", Val::dict(vec![]))])));
     let mut s1: BTreeMap<u32, Slot> = BTreeMap::new();
     s1.insert(3, d(Val::dict(vec![("Type", Val::name("Page")), ("Parent", Val::r(2)), ("MediaBox", rect(0, 0, 20, 20)), ("Resources", Val::dict(vec![]))])));
-    let style0 = if stream_first { XrefStyle::Stream { num: 4, w: [1, 3, 2], cuts: vec![], filter: StmFilter::None } } else { XrefStyle::Classic { cuts: vec![] } };
+    let style0 = if stream_first { XrefStyle::Stream { num: 4, w: [1, 3, 2], cuts: vec![], filter: StmFilter::None, predictor: 0 } } else { XrefStyle::Classic { cuts: vec![] } };
     let size0 = if stream_first { 5 } else { 4 };
-    let style1 = XrefStyle::Stream { num: size0, w: [1, 3, 2], cuts: vec![], filter: StmFilter::AsciiHex };
+    let style1 = XrefStyle::Stream { num: size0, w: [1, 3, 2], cuts: vec![], filter: StmFilter::AsciiHex, predictor: 0 };
     DocSpec {
         junk: vec![],
         revisions: vec![
